@@ -950,6 +950,8 @@ func intrinsic(name string) externalFn {
 		return func(fr *frame, args []value) value { ex.reach[strArg(args[0])] = true; return nil }
 	case "svNote":
 		return func(fr *frame, args []value) value { ex.notes = append(ex.notes, strArg(args[0])); return nil }
+	case "svNoop":
+		return func(fr *frame, args []value) value { return nil }
 	case "svStop":
 		return func(fr *frame, args []value) value { panic(stopPath{}) }
 	case "svNondetMapOrder":
